@@ -41,7 +41,26 @@ impl Engine for C06 {
             let len = rng.usize(8000, if thorough { 40000 } else { 17000 });
             records[i].seq = gen_seq(rng, len, Alpha::Mixed);
         }
-        let container = gen_container(rng, &records, true, true);
+        let mut container = gen_container(rng, &records, true, true);
+        // very rarely a file of more than 4 MiB on disk (4.3 - 5.3 MB of sequence): file
+        // size is what "large input" switches in a reader key on.  For the compressed size
+        // to pass 4 MiB too, a gzip container of this stratum stores (level 0) half the time.
+        if rng.chance(1, 9000) {
+            let n = rng.usize(70, 85);
+            let alpha = if rng.chance(1, 2) { Alpha::Clean } else { Alpha::Mixed };
+            records = (0..n)
+                .map(|i| {
+                    let len = rng.usize(58_000, 66_000);
+                    Rec { id: gen_id(rng, i), desc: gen_desc(rng), seq: gen_seq(rng, len, alpha) }
+                })
+                .collect();
+            container = gen_container(rng, &records, true, true);
+            if let Some(gz) = container.gz.as_mut() {
+                if rng.chance(1, 2) {
+                    gz.level = 0;
+                }
+            }
+        }
         let io = gen_io(rng, true);
         let workers = if rng.chance(1, 2) { 0 } else { rng.usize(2, 8) };
         let sched = Sched::draw(rng, 4 * records.len() as u64 + 8);
